@@ -172,6 +172,10 @@ func (fc *fnCtx) bindParamsFresh() {
 		v := g.newVal(fc.pfx+fv.Name(), fv.Type())
 		fc.vals[fv] = v
 		fc.wfRefAssume(v, fc.entryAC, "")
+		if _, isPtr := fv.Type().Underlying().(*types.Pointer); isPtr && fc.fn.Parent() != nil && fc.fn.Synthetic == "" && len(v.t) > 0 {
+			// the free variable of a function literal is the address of the captured variable's cell: never nil
+			g.assume(fmt.Sprintf("(not (= %s 0))", v.t[0]))
+		}
 	}
 	// heap well-formedness at entry: every reference stored anywhere in the entry heap is older than AC0
 	if !g.lite {
